@@ -446,5 +446,49 @@ theorem tandM_s45 (k : Kern) (x : F64) (h : sincosBranch (F64.remainder x qd) = 
   rw [sincosFinish_nz _ _ _ _ hnz]
   exact hv
 
+/-- a finite number with non-zero value carries the sign of its value -/
+theorem signbit_fin_iff (s : Bool) (m : ℕ) (e : ℤ) (h : (F64.fin s m e).val ≠ 0) : s = true ↔ (F64.fin s m e).val < 0 := by
+  rw [F64.val_fin] at h ⊢
+  have hp := Dy.two_zpow_pos e
+  have hm : (0:ℚ) < m := by
+    rcases Nat.eq_zero_or_pos m with h0 | h0
+    · exfalso; apply h; rw [h0]; simp
+    · exact_mod_cast h0
+  cases s
+  · simp only [Bool.false_eq_true, if_false, false_iff, not_lt]; positivity
+  · simp only [if_true, true_iff]; nlinarith
+
+/-- adding `+0` to a representable number changes neither its value nor (when it is non-zero) its sign -/
+theorem add_zero_same (z : F64) (h : F64.IsRep z) (hb : |z.val| ≤ (2:ℚ) ^ (1000:ℤ)) :
+    F64.IsRep (z + 0) ∧ (z + 0).val = z.val ∧ (z.val ≠ 0 → (z + 0).signbit = z.signbit) := by
+  obtain ⟨f, r, _⟩ := F64.add_rn z 0 h.1 rfl 1000 (by norm_num) (by norm_num) (by rw [F64.val_zero, add_zero]; exact hb)
+  rw [F64.val_zero, add_zero] at r
+  have hv : (z + 0).val = z.val := h.2.rn_eq r
+  refine ⟨⟨f, by rw [hv]; exact h.2⟩, hv, fun hnz => ?_⟩
+  obtain ⟨s1, m1, e1, h1⟩ := F64.exists_fin_of_isFinite (z + 0) f
+  obtain ⟨s2, m2, e2, h2⟩ := F64.exists_fin_of_isFinite z h.1
+  have a1 := signbit_fin_iff s1 m1 e1 (by rw [← h1, hv]; exact hnz)
+  have a2 := signbit_fin_iff s2 m2 e2 (by rw [← h2]; exact hnz)
+  rw [← h1, hv] at a1
+  rw [← h2] at a2
+  rw [h1, h2]
+  show s1 = s2
+  rw [Bool.eq_iff_iff]; exact a1.trans a2.symm
+
+
+theorem sixteenth_val : (F64.fin false 1 (-4)).val = 1 / 16 := by rw [F64.val_fin]; norm_num
+
+theorem rep_sixteenth : Rep ((1:ℚ) / 16) := ⟨1, -4, by norm_num, by norm_num, by norm_num⟩
+
+theorem grid57_sixteenth : OnGrid (-57) ((1:ℚ) / 16) := ⟨2 ^ 53, by norm_num⟩
+
+theorem lt_zero_iff (w : F64) (hw : w.isFinite = true) : F64.gt w 0 = true ↔ 0 < w.val := by
+  obtain ⟨s, m, e, rfl⟩ := F64.exists_fin_of_isFinite w hw
+  show Dy.lt (0 : F64).toDy (F64.fin s m e).toDy = true ↔ _
+  rw [Dy.lt_iff]
+  have : (0 : F64).toDy.val = 0 := by show (F64.fin false 0 0).toDy.val = 0; simp [F64.toDy, Dy.val]
+  rw [this]; rfl
+
+
 end MathF
 end GeoVerif
